@@ -71,13 +71,23 @@ Definition parse_misc (s : stream) (c : C) : res (stream * C) :=
   parse_misc_loop (S (length (s_rest s))) s c.
 
 (* parse_attribute (used by the XML declaration only) *)
-Definition parse_attribute (s : stream) : res stream :=
-  let! (_, _, s) := consume_qname text s in
+Definition parse_attribute (s : stream) : res (slice * slice * stream) :=
+  let! (prefix, local, s) := consume_qname text s in
   let! s := consume_eq text s in
   let! (quote, s) := consume_quote text s in
   let! s := skip_chars text (fun _ ch => negb (ch =? quote) && negb (ch =? 60)) s in
   let! _ := slice_back text (s_pos s) s in
-  consume_byte text quote s.
+  let! s := consume_byte text quote s in
+  Ok (prefix, local, s).
+
+(* parse_pseudo_attribute: a pseudo-attribute of the XML declaration; the name must be exactly
+   [name] (no prefix), not merely start with it *)
+Definition parse_pseudo_attribute (name : bytes) (s : stream) : res stream :=
+  let start := s_pos s in
+  let! (prefix, local, s) := parse_attribute s in
+  if negb (slice_len prefix =? 0) || negb (bytes_eqb (slice_bytes text local) name)
+  then err_from text start (InvalidString name)
+  else Ok s.
 
 (* parse_declaration and its local consume_spaces *)
 Definition decl_consume_spaces (s : stream) : res stream :=
@@ -90,14 +100,32 @@ Definition parse_declaration (s : stream) : res stream :=
   let! s := advance 5 s in
   let! s := decl_consume_spaces s in
   if negb (starts_with s (b "version")) then skip_string text (b "version") s else
-  let! s := parse_attribute s in
+  let! s := parse_pseudo_attribute (b "version") s in
   let! s := decl_consume_spaces s in
   let! s := if starts_with s (b "encoding")
-            then let! s := parse_attribute s in decl_consume_spaces s
+            then let! s := parse_pseudo_attribute (b "encoding") s in decl_consume_spaces s
             else Ok s in
-  let! s := if starts_with s (b "standalone") then parse_attribute s else Ok s in
+  let! s := if starts_with s (b "standalone")
+            then parse_pseudo_attribute (b "standalone") s else Ok s in
   let s := skip_spaces s in
   skip_string text (b "?>") s.
+
+(* parse_external_literal: a quoted SystemLiteral (any bytes but the quote), every character
+   of which must be an XML Char *)
+Definition parse_external_literal (s : stream) : res stream :=
+  let! (quote, s) := consume_quote text s in
+  let start := s_pos s in
+  let! (value, s) := consume_bytes text (fun x => negb (x =? quote)) s in
+  let! _ := is_xml_str text value start in
+  consume_byte text quote s.
+
+(* parse_pubid_literal: a quoted PubidLiteral, PubidChar* without the quote itself *)
+Definition parse_pubid_literal (s : stream) : res stream :=
+  let! (quote, s) := consume_quote text s in
+  let s := skip_bytes (fun x => negb (x =? quote) && pubid_char x) s in
+  let! x := curr_byte s in
+  if negb (x =? quote) then err_at text s InvalidExternalID
+  else advance 1 s.
 
 (* parse_external_id *)
 Definition parse_external_id (s : stream) : res (bool * stream) :=
@@ -106,15 +134,13 @@ Definition parse_external_id (s : stream) : res (bool * stream) :=
     let! s := advance 6 s in
     let! id := slice_back text start s in
     let! s := consume_spaces text s in
-    let! (quote, s) := consume_quote text s in
-    let! (_, s) := consume_bytes text (fun x => negb (x =? quote)) s in
-    let! s := consume_byte text quote s in
-    if bytes_eqb (slice_bytes text id) (b "SYSTEM") then Ok (true, s)
+    if bytes_eqb (slice_bytes text id) (b "SYSTEM") then
+      let! s := parse_external_literal s in
+      Ok (true, s)
     else
+      let! s := parse_pubid_literal s in
       let! s := consume_spaces text s in
-      let! (quote, s) := consume_quote text s in
-      let! (_, s) := consume_bytes text (fun x => negb (x =? quote)) s in
-      let! s := consume_byte text quote s in
+      let! s := parse_external_literal s in
       Ok (true, s)
   else Ok (false, s).
 
@@ -133,8 +159,10 @@ Definition parse_entity_def (s : stream) (is_ge : bool) : res (option slice * st
     let! (found, s) := parse_external_id s in
     if found then
       if is_ge then
+        let has_space := starts_with_space s in
         let s := skip_spaces s in
         if starts_with s (b "NDATA") then
+          if negb has_space then err_at text s (InvalidChar2 (b "a whitespace") 78) else
           let! s := advance 5 s in
           let! s := consume_spaces text s in
           let! s := skip_name text s in
